@@ -789,7 +789,16 @@ func runWrap(sc *Scenario, res *Result, keepLog bool) {
 		r.U, errU = dials.Config(r.ctx, defaults(), usources...)
 		s.Settle()
 		if errU != nil {
-			res.Infra = "unwrapped twin failed: " + errU.Error()
+			// the unwrapped twin's values are the library's own reverse
+			// translation of mechanically filled, well-formed data: when that
+			// fails (it never does on a tree whose Transformer works) the
+			// reverse translation is what is broken
+			r.fail("C20.unmangle", "the reverse translation (manglers %v) of well-formed data for the unwrapped twin failed: %v", w.Manglers, errU)
+			r.cancel()
+			s.Run(2000, nil, time.Now().Add(settleHorizon))
+			res.Reason = "twin-failed"
+			res.Viol = r.viol
+			res.Hash, res.Steps, res.NChoices, res.SimNS, res.States = s.Hash(), s.Step(), s.Choices(), int64(s.Elapsed()), s.States
 			return
 		}
 		r.compare("after the initial Config")
